@@ -415,6 +415,7 @@ def run(ctx):
             ctx.close()
             ctx.cap_hit("time budget hit")
             break
+    ctx.add(c16b.extra_cases(Res()))
     ctx.cov.update({"states": states * 3, "transitions": ctx.n, "traces_validated_against_impl": ctx.n, "evaluations": ctx.n, "distinct_nontrivial": ctx.nt})
     ctx.assumptions += [
         "reference values: closed Gaussian formulas (hbar = 2) and a dense Fock reference at cutoff 12 built from the same history; the two references are cross-checked against each other on every state",
